@@ -7,7 +7,7 @@ from .common import Case, HELD, VIOLATED, INCONCLUSIVE, h, rng
 ID = "C06"
 LEVEL = "exploration"
 BUILDS = ["rel"]
-BUDGET_S = {"quick": 400, "thorough": 3000}
+BUDGET_S = {"quick": 600, "thorough": 3000}
 MAXLEN = {"quick": 4, "thorough": 5}
 EXHAUSTIVE = {"quick": "all line sequences of length <=4 over the per-mode alphabets x directions x pattern modes x formats",
               "thorough": "all line sequences of length <=5 over the per-mode alphabets x directions x pattern modes x formats"}
